@@ -111,6 +111,48 @@ impl LibraryRenderer {
         Ok(())
     }
 
+    /// Writes the global variables of a configuration or resource. The grammar
+    /// admits a single VAR_GLOBAL block there and the qualifier belongs to the
+    /// block, so variables with the same qualifier share one block.
+    fn visit_global_var_decls(&mut self, vars: &[VarDecl]) -> Result<(), Diagnostic> {
+        let mut it = vars.iter().peekable();
+        while let Some(var) = it.next() {
+            self.write_ws("VAR_GLOBAL");
+            match var.qualifier {
+                DeclarationQualifier::Unspecified => {}
+                DeclarationQualifier::Constant => self.write_ws("CONSTANT"),
+                DeclarationQualifier::Retain => self.write_ws("RETAIN"),
+                DeclarationQualifier::NonRetain => self.write_ws("NON_RETAIN"),
+            }
+            self.newline();
+
+            self.indent();
+            let mut var = var;
+            loop {
+                match &var.identifier {
+                    VariableIdentifier::Symbol(id) => self.visit_id(id)?,
+                    VariableIdentifier::Direct(direct) => {
+                        self.visit_direct_variable_identifier(direct)?
+                    }
+                }
+                self.write_ws(":");
+                self.visit_initial_value_assignment_kind(&var.initializer)?;
+                self.write(";");
+                self.newline();
+
+                match it.next_if(|next| next.qualifier == var.qualifier) {
+                    Some(next) => var = next,
+                    None => break,
+                }
+            }
+            self.outdent();
+
+            self.write_ws("END_VAR");
+            self.newline();
+        }
+        Ok(())
+    }
+
     /// Writes the steps before or after a transition. More than one step
     /// is written as a parenthesized list.
     fn visit_transition_steps(&mut self, steps: &[Id]) -> Result<(), Diagnostic> {
@@ -999,16 +1041,14 @@ impl Visitor<Diagnostic> for LibraryRenderer {
         self.newline();
 
         self.indent();
+        self.visit_global_var_decls(&node.global_vars)?;
+
         for task in node.tasks.iter() {
             self.visit_task_configuration(task)?;
         }
 
         for program in node.programs.iter() {
             self.visit_program_configuration(program)?;
-        }
-
-        for var in node.global_vars.iter() {
-            self.visit_var_decl(var)?;
         }
 
         self.outdent();
@@ -1061,6 +1101,7 @@ impl Visitor<Diagnostic> for LibraryRenderer {
         self.newline();
 
         self.indent();
+        self.visit_global_var_decls(&node.global_var)?;
         for res in node.resource_decl.iter() {
             self.visit_resource_declaration(res)?;
         }
